@@ -209,7 +209,7 @@ pub fn run(ctx: &Ctx, st: &mut Stats) {
         st.mark_exhaustive("last_day_of_month: dates x critical-times", "all dates x all critical times (Timestamp; OracleDate at whole seconds)");
     }
     // seeded random (timestamp, offset)
-    let n = ctx.tier.pick(1_000, 1_000_000, 20_000_000);
+    let n = ctx.tier.pick(1_000, 1_000_000, ctx.big(20_000_000, 200_000_000));
     ctx.par(st, "random/timestamp x offset", false, 0, n, |st, _, rng| {
         let base = rng.range_i64(TS_MIN, TS_MAX);
         let k = match rng.below(3) {
